@@ -12,6 +12,7 @@ package main
 import (
 	"bytes"
 	"encoding/json"
+	stdcmp "cmp"
 	stderrors "errors"
 	"fmt"
 	"os"
@@ -42,7 +43,8 @@ func init() {
 		"non-trivial = distinct generated (tree, requests) with a request through >= 2 namespace levels that resolves"}
 	domains["load"] = domain{runLoad,
 		"include trees of 2..6 files (depth <= 3 quick / 4 thorough; diamonds, one file under several namespaces, " +
-			"cycles, missing/optional files, version/dotenv errors) with every include option and task attribute drawn " +
+			"cycles, missing/optional files, version/dotenv errors, one key used twice in tasks / includes / vars / env / " +
+			"task vars / include vars: must be the decode error) with every include option and task attribute drawn " +
 			"independently and small shared pools of task, namespace, alias and variable names; dependencies and task: " +
 			"targets are own names, ':'-prefixed root references (in the root file, at depth 1..3(4), inside and below " +
 			"flattened includes; each such tree is also checked by the root-reference monitor load.refs), references " +
@@ -93,6 +95,12 @@ type ldFile struct {
 	Dir      []int       `json:"dir,omitempty"`
 	Version  int         `json:"version"` // 3 → '3', 31 → '3.1', 0 → no version key
 	Dotenv   bool        `json:"dotenv,omitempty"`
+	Silent   bool        `json:"silent,omitempty"` // file-level defaults for the tasks of the file …
+	Method   int         `json:"method,omitempty"` // 0 = not declared, 1 checksum, 2 timestamp, 3 none
+	Run      int         `json:"run,omitempty"`    // 0 = not declared, 1 always, 2 once, 3 when_changed
+	Set      int         `json:"set,omitempty"`    // bit set over ldSetPool
+	Shopt    int         `json:"shopt,omitempty"`  // bit set over ldShoptPool
+	Output   int         `json:"output,omitempty"` // … and the output style: 0 = not set, 1 interleaved, 2 group, 3 prefixed
 	Vars     []ldVar     `json:"vars,omitempty"`
 	Env      []ldVar     `json:"env,omitempty"`
 	Includes []ldInclude `json:"includes,omitempty"`
@@ -115,7 +123,59 @@ var attrNames = [nAttrs]string{"silent", "interactive", "ignore_error", "watch",
 	"summary", "platforms", "sources", "generates", "status", "preconditions", "set", "shopt", "env", "dotenv", "prompt", "requires"}
 
 // number of non-zero variants of each attribute
-var attrVariants = [nAttrs]int{1, 1, 1, 1, 3, 3, 3, 3, 3, 3, 3, 2, 2, 2, 2, 2, 2, 2, 2, 2, 2}
+// (set and shopt are bit sets over their option pools: every non-empty subset is a variant)
+var attrVariants = [nAttrs]int{1, 1, 1, 1, 3, 3, 3, 3, 3, 3, 3, 2, 2, 2, 2, 7, 3, 2, 2, 2, 2}
+
+const (
+	posSet   = 15
+	posShopt = 16
+)
+
+var (
+	ldSetPool    = []string{"errexit", "pipefail", "nounset"}
+	ldShoptPool  = []string{"globstar", "nullglob"}
+	ldMethods    = []string{"", "checksum", "timestamp", "none"}
+	ldRuns       = []string{"", "always", "once", "when_changed"}
+	ldOutputs    = []string{"", "interleaved", "group", "prefixed"}
+)
+
+func maskList(pool []string, mask int) string {
+	var out []string
+	for i, o := range pool {
+		if mask&(1<<i) != 0 {
+			out = append(out, o)
+		}
+	}
+	return "[" + strings.Join(out, ", ") + "]"
+}
+
+// listMask: the bit set of a list of options (order and repetitions do not matter: UniqueJoin
+// sorts and compacts); an option outside the pool gives 999
+func listMask(pool []string, l []string) int {
+	m := 0
+	for _, o := range l {
+		found := false
+		for i, p := range pool {
+			if o == p {
+				m |= 1 << i
+				found = true
+			}
+		}
+		if !found {
+			return 999
+		}
+	}
+	return m
+}
+
+func nameIndex(pool []string, s string) int {
+	for i, p := range pool {
+		if p == s {
+			return i
+		}
+	}
+	return 999
+}
 
 func dirName(seg int) string { return "d" + strconv.Itoa(seg) }
 func keyName(k int) string   { return "K" + strconv.Itoa(k) }
@@ -162,9 +222,9 @@ func attrYAML(i, k int) string {
 	case "preconditions":
 		return []string{"", `preconditions: [{sh: "test -f pc1", msg: "m1"}]`, `preconditions: ["true"]`}[k]
 	case "set":
-		return []string{"", `set: [errexit]`, `set: [pipefail, nounset]`}[k]
+		return "set: " + maskList(ldSetPool, k)
 	case "shopt":
-		return []string{"", `shopt: [globstar]`, `shopt: [nullglob, globstar]`}[k]
+		return "shopt: " + maskList(ldShoptPool, k)
 	case "env":
 		return []string{"", `env: {EK: "e1"}`, `env: {EK: "e2", EL: "x"}`}[k]
 	case "dotenv":
@@ -208,6 +268,24 @@ func fileYAML(f *ldFile, pathOf func(id int) string) string {
 	}
 	if f.Dotenv {
 		b.WriteString("dotenv: ['.env']\n")
+	}
+	if f.Silent {
+		b.WriteString("silent: true\n")
+	}
+	if f.Method != 0 {
+		b.WriteString("method: " + ldMethods[f.Method] + "\n")
+	}
+	if f.Run != 0 {
+		b.WriteString("run: " + ldRuns[f.Run] + "\n")
+	}
+	if f.Set != 0 {
+		b.WriteString("set: " + maskList(ldSetPool, f.Set) + "\n")
+	}
+	if f.Shopt != 0 {
+		b.WriteString("shopt: " + maskList(ldShoptPool, f.Shopt) + "\n")
+	}
+	if f.Output != 0 {
+		b.WriteString("output: " + ldOutputs[f.Output] + "\n")
 	}
 	varsYAML(&b, "", "vars", f.Vars)
 	varsYAML(&b, "", "env", f.Env)
@@ -261,6 +339,8 @@ func fileYAML(f *ldFile, pathOf func(id int) string) string {
 			for _, c := range t.Cmds {
 				if c.Task != "" {
 					fmt.Fprintf(&b, "      - task: %s\n", q(c.Task))
+				} else if c.Sh == ldMatchSh {
+					fmt.Fprintf(&b, "      - %s\n", q(ldMatchCmd))
 				} else {
 					fmt.Fprintf(&b, "      - %s\n", q(fmt.Sprintf("echo c%d", c.Sh)))
 				}
@@ -343,6 +423,14 @@ func decodeAttrs(t *ast.Task) []int {
 	out := make([]int, nAttrs)
 	for i := 0; i < nAttrs; i++ {
 		out[i] = 999
+		if i == posSet {
+			out[i] = listMask(ldSetPool, t.Set)
+			continue
+		}
+		if i == posShopt {
+			out[i] = listMask(ldShoptPool, t.Shopt)
+			continue
+		}
 		for k, s := range attrTable[i] {
 			if s == c[i] {
 				out[i] = k
@@ -351,6 +439,19 @@ func decodeAttrs(t *ast.Task) []int {
 		}
 	}
 	return out
+}
+
+// the command that prints the wildcard values of the call ({{.MATCH}}), unambiguously; in the
+// abstract tree it is the shell command number ldMatchSh
+const ldMatchSh = 9000
+const ldMatchPrefix = "echo c9000 "
+const ldMatchCmd = ldMatchPrefix + "{{range .MATCH}}<{{.}}>{{end}}"
+
+func decodeSh(cmd string) int {
+	if cmd == ldMatchCmd {
+		return ldMatchSh
+	}
+	return decodeNum(cmd, "echo c")
 }
 
 func decodeNum(s, prefix string) int {
@@ -422,7 +523,7 @@ func cmdsDump(cmds []*ast.Cmd) string {
 		if c.Task != "" {
 			out = append(out, hx(c.Task), "0")
 		} else {
-			out = append(out, "-", strconv.Itoa(decodeNum(c.Cmd, "echo c")))
+			out = append(out, "-", strconv.Itoa(decodeSh(c.Cmd)))
 		}
 	}
 	return strings.Join(out, " ")
@@ -457,8 +558,11 @@ func classifyErr(err error) string {
 	var cycp *errors.TaskfileCycleError
 	var conf *errors.TaskNameFlattenConflictError
 	var vc *errors.TaskfileVersionCheckError
+	var dec *errors.TaskfileDecodeError
 	class := "other"
 	switch {
+	case stderrors.As(err, &dec):
+		class = "decode"
 	case stderrors.As(err, &cyc), stderrors.As(err, &cycp):
 		class = "cycle"
 	case stderrors.As(err, &conf):
@@ -506,7 +610,24 @@ func resolveOnce(root string, reqs []string) (res string) {
 					}
 				}
 			}
-			parts = append(parts, strings.TrimSpace(fmt.Sprintf("found %s %d %s", hx(t.Task), len(ws), hxs(ws))))
+			// what a command of the task sees as {{.MATCH}}: compile the call and read the rendered text
+			rendered := "-"
+			for _, cm := range t.Cmds {
+				if cm != nil && cm.Cmd == ldMatchCmd {
+					rendered = "not-rendered"
+					if ct, cerr := e.CompiledTask(call); cerr != nil {
+						rendered = "compile-error:" + hx(cerr.Error())
+					} else {
+						for _, cc := range ct.Cmds {
+							if cc != nil && strings.HasPrefix(cc.Cmd, ldMatchPrefix) {
+								rendered = hx(strings.TrimPrefix(cc.Cmd, ldMatchPrefix))
+							}
+						}
+					}
+					break
+				}
+			}
+			parts = append(parts, strings.TrimSpace(fmt.Sprintf("found %s %d %s", hx(t.Task), len(ws), hxs(ws)))+" R "+rendered)
 		case errors.As(err, &nf):
 			parts = append(parts, "notfound")
 		case errors.As(err, &cf):
@@ -617,6 +738,10 @@ func loadOnce(root string, ids map[string]int, probe int, keys []int) (res ldLoa
 		for _, a := range decodeAttrs(t) {
 			fmt.Fprintf(&sb, " %d", a)
 		}
+		// what the task executes with: the executor's own lookups (task.go, hash.go, status.go)
+		fmt.Fprintf(&sb, " EF %s %d %d %d %d", b2s(t.Silent || tf.Silent), nameIndex(ldMethods, stdcmp.Or(t.Method, tf.Method)),
+			nameIndex(ldRuns, stdcmp.Or(t.Run, tf.Run)), listMask(ldSetPool, append(append([]string{}, tf.Set...), t.Set...)),
+			listMask(ldShoptPool, append(append([]string{}, tf.Shopt...), t.Shopt...)))
 		fmt.Fprintf(&sb, " TV %s IV %s XV %s", varsDump(root, t.Vars), varsDump(root, t.IncludeVars), varsDump(root, t.IncludedTaskfileVars))
 		if probe > 0 && idx%probe == 0 {
 			fmt.Fprintf(&pb, " %d %s", idx, probeTask(e, root, name, keys))
@@ -632,6 +757,8 @@ func loadOnce(root string, ids map[string]int, probe int, keys []int) (res ldLoa
 		fmt.Fprintf(&rb, " T %s L %d R %s", key, locID(t), namesDump(refs))
 	}
 	fmt.Fprintf(&sb, " V %s E %s", varsDump(root, tf.Vars), varsDump(root, tf.Env))
+	fmt.Fprintf(&sb, " FD %s %d %d %d %d O %d", b2s(tf.Silent), nameIndex(ldMethods, tf.Method), nameIndex(ldRuns, tf.Run),
+		listMask(ldSetPool, tf.Set), listMask(ldShoptPool, tf.Shopt), nameIndex(ldOutputs, tf.Output.Name))
 	pr := ""
 	if probe > 0 {
 		pr = fmt.Sprintf(" PR %d%s", probed, pb.String())
@@ -702,7 +829,8 @@ func loadCaseLine(d *ldCase) string {
 	}
 	for i := range d.Files {
 		f := &d.Files[i]
-		fmt.Fprintf(&b, " %d %d %s %s %s %s %d", f.ID, f.Version, b2s(f.Dotenv), natsTok(f.Dir), varsTok(f.Vars), varsTok(f.Env), len(f.Includes))
+		fmt.Fprintf(&b, " %d %d %s %s %d %d %d %d %d %s %s %s %d", f.ID, f.Version, b2s(f.Dotenv), b2s(f.Silent), f.Method, f.Run, f.Set, f.Shopt,
+			f.Output, natsTok(f.Dir), varsTok(f.Vars), varsTok(f.Env), len(f.Includes))
 		for _, inc := range f.Includes {
 			fmt.Fprintf(&b, " %s %d %s %s %s %s %s %s %s %s", hx(inc.NS), inc.File, natsTok(inc.Dir), b2s(inc.Optional), b2s(inc.Internal),
 				b2s(inc.Flatten), b2s(inc.Advanced), namesDump(inc.Aliases), namesDump(inc.Excludes), varsTok(inc.Vars))
@@ -760,7 +888,9 @@ func absSegs(d string) []int {
 // abstractFile maps a decoded Taskfile back to the abstract form; include targets are
 // resolved through byPath (path relative to the tree root → id).
 func abstractFile(f *ldFile, tf *ast.Taskfile, byPath map[string]int) ldFile {
-	g := ldFile{ID: f.ID, Base: f.Base, Dir: f.Dir, Dotenv: len(tf.Dotenv) > 0, Vars: loadAbsVars(tf.Vars), Env: loadAbsVars(tf.Env)}
+	g := ldFile{ID: f.ID, Base: f.Base, Dir: f.Dir, Dotenv: len(tf.Dotenv) > 0, Vars: loadAbsVars(tf.Vars), Env: loadAbsVars(tf.Env),
+		Silent: tf.Silent, Method: nameIndex(ldMethods, tf.Method), Run: nameIndex(ldRuns, tf.Run), Set: listMask(ldSetPool, tf.Set),
+		Shopt: listMask(ldShoptPool, tf.Shopt), Output: nameIndex(ldOutputs, tf.Output.Name)}
 	if tf.Version != nil {
 		g.Version = int(tf.Version.Major())
 		if tf.Version.Minor() != 0 {
@@ -783,7 +913,7 @@ func abstractFile(f *ldFile, tf *ast.Taskfile, byPath map[string]int) ldFile {
 			if c.Task != "" {
 				at.Cmds = append(at.Cmds, ldCmd{Task: c.Task})
 			} else {
-				at.Cmds = append(at.Cmds, ldCmd{Sh: decodeNum(c.Cmd, "echo c")})
+				at.Cmds = append(at.Cmds, ldCmd{Sh: decodeSh(c.Cmd)})
 			}
 		}
 		g.Tasks = append(g.Tasks, at)
@@ -855,6 +985,12 @@ func evalLoad(d ldCase) (string, string) {
 	// self-check: what the repo's decoder reads back is the abstract file
 	for i := range d.Files {
 		f := &d.Files[i]
+		if f.hasDupKey() {
+			// a key used twice cannot be read back (decode error; before the fix the
+			// second definition silently replaced the first): the abstract file is the
+			// list of pairs as written
+			continue
+		}
 		tf, err := parseTaskfile(srcs[f.ID])
 		if err != nil {
 			return cl, fmt.Sprintf("selfcheck parse %d %s", f.ID, hx(err.Error()))
@@ -924,6 +1060,39 @@ func evalLoad(d ldCase) (string, string) {
 	return cl, fmt.Sprintf("nondet %d | %s | %s", len(order), order[0], order[1])
 }
 
+func dupVarKeys(vs []ldVar) bool {
+	seen := map[int]bool{}
+	for _, v := range vs {
+		if seen[v.K] {
+			return true
+		}
+		seen[v.K] = true
+	}
+	return false
+}
+
+// hasDupKey: some mapping the repo decodes by hand (tasks, includes, vars / env at file,
+// task and include level) has a key used twice.
+func (f *ldFile) hasDupKey() bool {
+	if dupVarKeys(f.Vars) || dupVarKeys(f.Env) {
+		return true
+	}
+	seen := map[string]bool{}
+	for _, t := range f.Tasks {
+		if seen["t"+t.Name] || dupVarKeys(t.Vars) {
+			return true
+		}
+		seen["t"+t.Name] = true
+	}
+	for _, inc := range f.Includes {
+		if seen["i"+inc.NS] || dupVarKeys(inc.Vars) {
+			return true
+		}
+		seen["i"+inc.NS] = true
+	}
+	return false
+}
+
 // noNormalise: the abstract file is in the normal form the serialiser can express
 // (options only on advanced includes, attribute vector complete and in range).
 func (f *ldFile) noNormalise() bool {
@@ -947,11 +1116,25 @@ func (f *ldFile) noNormalise() bool {
 
 // ---------------------------------------------------------------- generator
 
+// task names with wildcards (domain loadresolve only): patterns that overlap with each other, with
+// plain names and with names under a namespace, so that WHICH pattern comes first in the merged
+// table (the parent file's before the included files') decides the answer
+var ldPatterns = []string{"x-*", "x-a*", "*-b", "t*", "*:t", "n1:*", "*-*", "*:x-*", "*"}
+
+var ldWild = false
+
 var (
 	ldTaskNames  = []string{"a", "b", "c", "default", "n1", "t", "u"}
 	ldNamespaces = []string{"n1", "n2", "n3", "a", "b"}
 	ldAliases    = []string{"al1", "al2", "a", "x", "n2"}
 )
+
+func b2i(b bool) int {
+	if b {
+		return 1
+	}
+	return 0
+}
 
 func (c *Ctx) chance(p int) bool { return c.Rng.Intn(100) < p }
 
@@ -1013,6 +1196,20 @@ func (c *Ctx) genRef(own []string, rootTasks []string) string {
 // ':x' written in the root file is a reference to the root's x as well.
 func (c *Ctx) genTasks(rootTasks []string, isRoot bool) []ldTask {
 	names := c.pickSome(ldTaskNames, 4)
+	if ldWild && c.chance(70) {
+		seen := map[string]bool{}
+		for _, n := range names {
+			seen[n] = true
+		}
+		for _, p := range c.pickSome(ldPatterns[:len(ldPatterns)-1+c.Rng.Intn(2)], 3) {
+			if !seen[p] {
+				seen[p] = true
+				at := c.Rng.Intn(len(names) + 1)
+				names = append(names[:at:at], append([]string{p}, names[at:]...)...)
+				c.Hit("wild:pattern-task")
+			}
+		}
+	}
 	if isRoot {
 		rootTasks = names
 	}
@@ -1048,6 +1245,9 @@ func (c *Ctx) genTasks(rootTasks []string, isRoot bool) []ldTask {
 		}
 		if c.chance(30) {
 			t.Vars = c.genVars(2)
+		}
+		if strings.Contains(n, "*") {
+			t.Cmds = append(t.Cmds, ldCmd{Sh: ldMatchSh})
 		}
 		out = append(out, t)
 	}
@@ -1103,6 +1303,9 @@ type ldGenCfg struct {
 	keyPool      int  // variable names are drawn from K1..K<keyPool>
 	pInject      int  // percent of trees with an injected load error (scaled)
 	refsMonitor  bool // also evaluate the root-reference monitor (property C08 only)
+	wild         bool // wildcard task names (property C15 only)
+	pMulti       int  // percent of the trees that get TWO OR THREE load errors of different kinds, in different files (property C09)
+	pDup         int  // percent of the error-free trees that get one key used twice (property C08 only)
 }
 
 var ldKeyPool = 5
@@ -1111,6 +1314,7 @@ var ldKeyPool = 5
 func (c *Ctx) genTree(cfg ldGenCfg) ldCase {
 	maxDepth := cfg.maxDepth
 	ldKeyPool = cfg.keyPool
+	ldWild = cfg.wild
 	n := 2 + c.Rng.Intn(5)
 	gf := make([]*ldGenFile, n)
 	usedBase := map[string]bool{}
@@ -1158,6 +1362,36 @@ func (c *Ctx) genTree(cfg ldGenCfg) ldCase {
 		}
 		g.f.Vars = c.genVars(3)
 		g.f.Env = c.genVars(2)
+		// file-level defaults for the tasks of the file, and the output style
+		if c.chance(45) {
+			if c.chance(40) {
+				g.f.Silent = true
+				c.Hit("filedefault:silent")
+			}
+			if c.chance(40) {
+				g.f.Method = 1 + c.Rng.Intn(3)
+				c.Hit("filedefault:method")
+			}
+			if c.chance(40) {
+				g.f.Run = 1 + c.Rng.Intn(3)
+				c.Hit("filedefault:run")
+			}
+			if c.chance(40) {
+				g.f.Set = 1 + c.Rng.Intn(7)
+				c.Hit("filedefault:set")
+			}
+			if c.chance(40) {
+				g.f.Shopt = 1 + c.Rng.Intn(3)
+				c.Hit("filedefault:shopt")
+			}
+			if i > 0 {
+				c.Hit("filedefault:in-included-file")
+			}
+		}
+		if c.chance(25) {
+			g.f.Output = 1 + c.Rng.Intn(3)
+			c.Hit("output:" + []string{"root", "included"}[b2i(i > 0)])
+		}
 		gf[i] = g
 	}
 	// structure: every file but the root has at least one parent among the earlier files
@@ -1306,7 +1540,50 @@ func (c *Ctx) genTree(cfg ldGenCfg) ldCase {
 		gf[c.Rng.Intn(n)].f.Version = 0
 		note = "noversion"
 	}
-	if note != "" {
+	if note == "" && cfg.pDup > 0 && c.chance(cfg.pDup) {
+		note = c.injectDupKey(gf)
+	}
+	if note == "" && cfg.pMulti > 0 && c.chance(cfg.pMulti) {
+		// several errors in one tree — in sibling includes of one file, nested below each other, in a file
+		// reached along two paths: the error reported must be the one a sequential read in declaration
+		// order meets first, on every load
+		var kinds []string
+		for j := 2 + c.Rng.Intn(2); j > 0; j-- {
+			switch c.Rng.Intn(4) {
+			case 0:
+				p := c.Rng.Intn(n)
+				inc := c.genInclude(freshNS(p), 90+c.Rng.Intn(5), nil)
+				inc.Optional = false
+				at := c.Rng.Intn(len(gf[p].f.Includes) + 1)
+				gf[p].f.Includes = append(gf[p].f.Includes[:at:at], append([]ldInclude{inc}, gf[p].f.Includes[at:]...)...)
+				kinds = append(kinds, "missing")
+			case 1:
+				gf[c.Rng.Intn(n)].f.Version = 0
+				kinds = append(kinds, "noversion")
+			case 2:
+				if k := c.injectDupKey(gf); k != "" {
+					kinds = append(kinds, "dupkey")
+				}
+			default:
+				if n > 2 {
+					i := 1 + c.Rng.Intn(n-1)
+					anc := i
+					for steps := c.Rng.Intn(3); steps > 0 && len(gf[anc].parents) > 0; steps-- {
+						anc = gf[anc].parents[0]
+					}
+					gf[i].f.Includes = append(gf[i].f.Includes, c.genInclude(freshNS(i), gf[anc].f.ID, nil))
+					kinds = append(kinds, "cycle")
+				}
+			}
+		}
+		sort.Strings(kinds)
+		note = "multi:" + strings.Join(kinds, "+")
+		c.Hit("inject:multi")
+		for _, k := range kinds {
+			c.Hit("multi:" + k)
+		}
+	}
+	if note != "" && !strings.HasPrefix(note, "multi:") {
 		c.Hit("inject:" + note)
 	}
 	d := ldCase{Op: "tree", Root: gf[0].f.ID, Note: note}
@@ -1314,6 +1591,63 @@ func (c *Ctx) genTree(cfg ldGenCfg) ldCase {
 		d.Files = append(d.Files, gf[i].f)
 	}
 	return d
+}
+
+// injectDupKey makes one mapping of one file use a key twice: a second task of the same
+// name (other commands), a second include statement under the same namespace (same or
+// another file), a second definition of a variable (file vars / env, task vars, include
+// vars).  Every file of the tree is reachable, so the load must end in the decode error.
+func (c *Ctx) injectDupKey(gf []*ldGenFile) string {
+	n := len(gf)
+	for tries := 0; tries < 40; tries++ {
+		f := &gf[c.Rng.Intn(n)].f
+		dupVar := func(vs []ldVar) []ldVar {
+			v := vs[c.Rng.Intn(len(vs))]
+			return append(vs, ldVar{v.K, 41 + c.Rng.Intn(9)})
+		}
+		switch c.Rng.Intn(6) {
+		case 0:
+			if len(f.Tasks) > 0 {
+				t := f.Tasks[c.Rng.Intn(len(f.Tasks))]
+				t2 := ldTask{Name: t.Name, Attrs: make([]int, nAttrs), Cmds: []ldCmd{{Sh: 60 + c.Rng.Intn(9)}}}
+				at := c.Rng.Intn(len(f.Tasks) + 1)
+				f.Tasks = append(f.Tasks[:at:at], append([]ldTask{t2}, f.Tasks[at:]...)...)
+				return "dupkey-tasks"
+			}
+		case 1:
+			if len(f.Includes) > 0 {
+				inc := f.Includes[c.Rng.Intn(len(f.Includes))]
+				other := f.Includes[c.Rng.Intn(len(f.Includes))]
+				f.Includes = append(f.Includes, ldInclude{NS: inc.NS, File: other.File, Advanced: c.chance(50)})
+				return "dupkey-includes"
+			}
+		case 2:
+			if len(f.Vars) > 0 {
+				f.Vars = dupVar(f.Vars)
+				return "dupkey-vars"
+			}
+		case 3:
+			if len(f.Env) > 0 {
+				f.Env = dupVar(f.Env)
+				return "dupkey-env"
+			}
+		case 4:
+			for i := range f.Tasks {
+				if len(f.Tasks[i].Vars) > 0 {
+					f.Tasks[i].Vars = dupVar(f.Tasks[i].Vars)
+					return "dupkey-task-vars"
+				}
+			}
+		case 5:
+			for i := range f.Includes {
+				if len(f.Includes[i].Vars) > 0 {
+					f.Includes[i].Vars = dupVar(f.Includes[i].Vars)
+					return "dupkey-include-vars"
+				}
+			}
+		}
+	}
+	return ""
 }
 
 // shapeKey identifies a tree up to values: include edges with options and task names.
@@ -1363,21 +1697,23 @@ func hasColonRef(d *ldCase) bool {
 
 func runLoad(c *Ctx) {
 	runLoadWith(c, c.Pick(260, 2500), c.Pick(20, 100),
-		ldGenCfg{maxDepth: c.Pick(3, 4), pRootParent: 0, pExtraParent: 22, pTwice: 18, keyPool: 5, pInject: 25, refsMonitor: true})
+		ldGenCfg{maxDepth: c.Pick(3, 4), pRootParent: 0, pExtraParent: 22, pTwice: 18, keyPool: 5, pInject: 25, refsMonitor: true, pDup: 12})
 }
 
 // runLoadDeep (property C09): the trees of domain load, without the C08 reference monitor.
 func runLoadDeep(c *Ctx) {
 	runLoadWith(c, c.Pick(200, 1500), c.Pick(25, 100),
-		ldGenCfg{maxDepth: c.Pick(3, 4), pRootParent: 0, pExtraParent: 25, pTwice: 22, keyPool: 3, pInject: 20})
+		ldGenCfg{maxDepth: c.Pick(3, 4), pRootParent: 0, pExtraParent: 25, pTwice: 22, keyPool: 3, pInject: 20, pMulti: 30})
 }
 
 // runLoadRep (property C09): wide, shallow trees — many sibling includes of one parent,
 // one file under several namespaces, diamonds, few variable names — loaded more often.
 func runLoadRep(c *Ctx) {
 	runLoadWith(c, c.Pick(110, 800), c.Pick(40, 200),
-		ldGenCfg{maxDepth: 2, pRootParent: 70, pExtraParent: 30, pTwice: 35, keyPool: 2, pInject: 8})
+		ldGenCfg{maxDepth: 2, pRootParent: 70, pExtraParent: 30, pTwice: 35, keyPool: 2, pInject: 8, pMulti: 30})
 }
+
+var ldStarWords = []string{"a", "b", "ab", "a-b", "x-a", "t", "x-a-b", "n1", "", "a:t"}
 
 // runLoadResolve (property C15): name resolution over merged tables — the include trees of
 // domain load, each asked for a sample of the names its namespaces, namespace aliases, task
@@ -1391,7 +1727,7 @@ func runLoadResolve(c *Ctx) {
 		return
 	}
 	n := c.Pick(220, 2500)
-	cfg := ldGenCfg{maxDepth: c.Pick(3, 4), pRootParent: 10, pExtraParent: 15, pTwice: 15, keyPool: 2, pInject: 0}
+	cfg := ldGenCfg{maxDepth: c.Pick(3, 4), pRootParent: 10, pExtraParent: 15, pTwice: 15, keyPool: 2, pInject: 0, wild: true}
 	for i := 0; i < n; i++ {
 		d := c.genTree(cfg)
 		d.Op = "resolve"
@@ -1401,6 +1737,19 @@ func runLoadResolve(c *Ctx) {
 		k := 10
 		for j := 0; j < k && len(cands) > 0; j++ {
 			r := cands[c.Rng.Intn(len(cands))]
+			if strings.Contains(r, "*") && c.chance(85) {
+				// a name the pattern spells: every star replaced by a short word that other patterns match too
+				var sb strings.Builder
+				for _, ch := range r {
+					if ch == '*' {
+						sb.WriteString(ldStarWords[c.Rng.Intn(len(ldStarWords))])
+					} else {
+						sb.WriteRune(ch)
+					}
+				}
+				r = sb.String()
+				c.Hit("request:instantiated-pattern")
+			}
 			switch c.Rng.Intn(8) {
 			case 0: // drop the first namespace segment
 				if ix := strings.Index(r, ":"); ix >= 0 {
@@ -1433,6 +1782,7 @@ func runLoadResolve(c *Ctx) {
 		if strings.Contains(il, "found") && nested > 0 {
 			c.Distinct(cl)
 		}
+		ldWildFeatures(c, &d, il)
 	}
 }
 
@@ -1507,4 +1857,63 @@ func runLoadWith(c *Ctx, n, loads int, cfg ldGenCfg) {
 		}
 		c.Emit(out[i].cl, out[i].il, d)
 	}
+}
+
+// ldWildFeatures counts what the wildcard requests exercised: a request that patterns of SEVERAL
+// files match (root and included, or included and flattened), answered by the root file's pattern;
+// a rendered {{.MATCH}} with two or more values.
+func ldWildFeatures(c *Ctx, d *ldCase, il string) {
+	parts := strings.Split(il, " | ")
+	if len(parts) != len(d.Reqs)+1 {
+		return
+	}
+	rootPats := map[string]bool{}
+	for _, f := range d.Files {
+		if f.ID == d.Root {
+			for _, t := range f.Tasks {
+				if strings.Contains(t.Name, "*") {
+					rootPats[t.Name] = true
+				}
+			}
+		}
+	}
+	for i, rq := range d.Reqs {
+		fs := strings.Fields(parts[i+1])
+		if len(fs) < 3 || fs[0] != "found" {
+			continue
+		}
+		nw, _ := strconv.Atoi(fs[2])
+		if nw == 0 {
+			continue
+		}
+		c.Hit("wild:resolved-through-pattern")
+		if nw >= 2 {
+			c.Hit("wild:two-or-more-values")
+		}
+		if fs[len(fs)-1] != "-" && fs[len(fs)-2] == "R" {
+			c.Hit("wild:rendered-MATCH-compared")
+		}
+		name := unhx(fs[1])
+		// how many tasks of the whole tree (under any namespace path) have a pattern matching the request?
+		if rootPats[name] {
+			c.Hit("wild:answered-by-root-file-pattern")
+		} else if strings.Contains(name, ":") {
+			c.Hit("wild:answered-by-included-pattern")
+		} else {
+			c.Hit("wild:answered-by-flattened-pattern")
+		}
+		_ = rq
+	}
+}
+
+func unhx(h string) string {
+	if h == "-" {
+		return ""
+	}
+	b := make([]byte, len(h)/2)
+	for i := range b {
+		v, _ := strconv.ParseUint(h[2*i:2*i+2], 16, 8)
+		b[i] = byte(v)
+	}
+	return string(b)
 }
